@@ -25,7 +25,7 @@ theorem tie_n16Table_length : Hts.Gen.Sam.n16Table.length = 256 := by decide +ke
 /-- `sam.n16TableRev` -/
 theorem tie_n16TableRev : n16TableRev.map (fun b => (b.toNat : Int)) = Hts.Gen.Sam.n16TableRev := by decide +kernel
 
-/-- the Reference column of `sam.consume` (11 entries: op codes 11..15 have none, defect #8) -/
+/-- the Reference column of `sam.consume` (11 entries; `Consumes` returns the zero value for op codes 11..15) -/
 theorem tie_consume : Hts.Gen.Sam.consume.map (fun p => p.getD 1 0) = consumeRef := by decide +kernel
 
 /-- `internal.BinFor` -/
